@@ -10,8 +10,6 @@ package client
 // entered with the mutex free and leave it free (getTable is called with it held).
 //@ guarded Client.mu: tables, forceFailureErr, itemCollectionMetrics, useNativeInterpreter, nativeInterpreter, langInterpreter
 
-//@ func (*Client).getTable
-//@   lockheld
 
 // ---- C15: emulated failures ---------------------------------------------------------------------
 // While a failure is configured, every data method returns exactly that error and changes nothing.
@@ -126,3 +124,48 @@ package client
 //@   loop 1:
 //@     invariant fresh(arr(mapItems)) && arr(mapItems) != 0 && len(mapItems) == len(attrs) && attrs != nil && rangeindex >= -1 && rangeindex < len(attrs)
 //@     invariant forall j int :: {mapItems[j]} 0 <= j && j <= rangeindex ==> mapItems[j] != nil && fresh(mapItems[j]) && SameScalarsD(attrs[j], mapItems[j]) && SameSlicesD(attrs[j], mapItems[j]) && SameShapeD(attrs[j], mapItems[j])
+
+// ---- C18: table lifecycle (see the SDK v2 client's contract file for the reading of these clauses) --------------
+//@ func (*Client).getTable
+//@   lockheld
+//@   requires fd != nil
+//@   ensures[C18] (result1 == nil) == (tableName in fd.tables)
+//@   ensures[C18] result1 == nil ==> result0 == fd.tables[tableName]
+//@   ensures[C18] result1 != nil ==> result0 == nil
+
+//@ func (*Client).CreateTable
+//@   partial
+//@   requires fd != nil && input != nil && fd.tables != nil
+//@   opaque (*Table).Description
+//@   ensures[C18] old((input.TableName == nil ? "" : *input.TableName) in fd.tables) ==> result1 != nil && content(fd.tables) == old(content(fd.tables))
+//@   ensures[C18] result1 != nil ==> content(fd.tables) == old(content(fd.tables))
+//@   ensures[C18] result1 == nil ==> !old((input.TableName == nil ? "" : *input.TableName) in fd.tables) && dom(fd.tables) == with(old(dom(fd.tables)), old(input.TableName == nil ? "" : *input.TableName)) &&
+//@                fresh(fd.tables[old(input.TableName == nil ? "" : *input.TableName)]) && fd.tables[old(input.TableName == nil ? "" : *input.TableName)] != nil
+//@   ensures[C18] result1 == nil ==> len(fd.tables[old(input.TableName == nil ? "" : *input.TableName)].SortedKeys) == 0 && fresh(fd.tables[old(input.TableName == nil ? "" : *input.TableName)].Data)
+//@   ensures[C18] forall n string :: {fd.tables[n]} n != old(input.TableName == nil ? "" : *input.TableName) ==> fd.tables[n] == old(fd.tables[n]) && (n in fd.tables) == old(n in fd.tables)
+
+//@ func (*Client).DeleteTable
+//@   partial
+//@   requires fd != nil && input != nil && fd.tables != nil
+//@   opaque (*Table).Description
+//@   ensures[C18] result1 != nil ==> content(fd.tables) == old(content(fd.tables))
+//@   ensures[C18] result1 == nil ==> dom(fd.tables) == without(old(dom(fd.tables)), old(input.TableName == nil ? "" : *input.TableName))
+//@   ensures[C18] forall n string :: {fd.tables[n]} n != old(input.TableName == nil ? "" : *input.TableName) ==> fd.tables[n] == old(fd.tables[n]) && (n in fd.tables) == old(n in fd.tables)
+
+//@ func (*Client).DescribeTable
+//@   partial
+//@   requires fd != nil && input != nil
+//@   opaque (*Table).Description
+//@   callsite[C18] (*Table).Description: arg.t == fd.tables[old(input.TableName == nil ? "" : *input.TableName)] && arg.name == old(input.TableName == nil ? "" : *input.TableName)
+//@   ensures[C18] content(fd.tables) == old(content(fd.tables))
+
+//@ func NewClient
+//@   ensures[C18] fresh(result) && result != nil && fresh(result.tables) && result.tables != nil && len(result.tables) == 0 && result.forceFailureErr == nil
+//@   ensures[C18] fresh(result.nativeInterpreter) && fresh(result.langInterpreter)
+
+//@ func ClearTable
+//@   partial
+//@   requires typeis(client, "*Client") ==> client.(*Client) != nil && forall n string :: {client.(*Client).tables[n]} n in client.(*Client).tables ==> client.(*Client).tables[n] != nil &&
+//@            (forall m string :: {client.(*Client).tables[n].Indexes[m]} m in client.(*Client).tables[n].Indexes ==> client.(*Client).tables[n].Indexes[m] != nil)
+//@   callsite[C18] (*Table).Clear: arg.t == table
+//@   callsite[C18] (*index).Clear: arg.i == index
